@@ -81,6 +81,15 @@ func (t Term) render(alias func(string) string) string {
 	panic("kind")
 }
 
+// level writes a precedence level; style bit 512 pads it with zeros to three digits (a decimal
+// number either way).
+func (g *G) level(n int) string {
+	if g.Style&512 != 0 {
+		return fmt.Sprintf("%03d", n)
+	}
+	return fmt.Sprint(n)
+}
+
 // TokChar is the single character the default lexer section assigns to token i.
 func TokChar(i int) rune { return 'a' + rune(i) }
 
@@ -138,9 +147,9 @@ func (g *G) loxLF() string {
 			}
 			if p.Prec > 0 {
 				if p.Right {
-					fmt.Fprintf(&ps, " @right(%d)", p.Prec)
+					fmt.Fprintf(&ps, " @right(%s)", g.level(p.Prec))
 				} else {
-					fmt.Fprintf(&ps, " @left(%d)", p.Prec)
+					fmt.Fprintf(&ps, " @left(%s)", g.level(p.Prec))
 				}
 			}
 		}
